@@ -24,3 +24,18 @@ Fixpoint run_curs (c : cfg) (s : st) (h : list op) : list (option Z) :=
   | [] => []
   | o :: r => let s1 := fst (step c s o) in cur (w s1) :: run_curs c s1 r
   end.
+
+(* C02, the future guard as an executable clause: no received watermark is more than a day ahead of the latest
+   clock reading of the history (an event more than 24 h + MAXOUTOFORDERNESS ahead of the wall clock never moves the
+   watermark, however far earlier accepted events were ahead). Index of the first offending watermark. *)
+Fixpoint wm_beyond_at (limit : Z) (tr : list ev) (i : nat) : option nat :=
+  match tr with
+  | [] => None
+  | EvDB x :: r => if limit <? x then Some i else wm_beyond_at limit r (S i)
+  | _ :: r => wm_beyond_at limit r (S i)
+  end.
+Definition wm_beyond_guard (maxclock : Z) (tr : list ev) : option nat := wm_beyond_at (maxclock + day) tr 0.
+
+(* every clock reading of a history is at most n *)
+Definition op_clock_le (n : Z) (o : op) : Prop :=
+  match o with Add _ _ now => now <= n | Tick now => now <= n | _ => True end.
